@@ -9,6 +9,8 @@ for _f in sorted(os.listdir(os.path.join(ROOT, 'tools', 'manifest.d'))):
     if _f.endswith('.py'):
         exec(open(os.path.join(ROOT, 'tools', 'manifest.d', _f)).read())
 
+ENABLED = set(open(os.path.join(ROOT, 'tools', 'enabled.txt')).read().split())
+CHECKS = {k: v for k, v in CHECKS.items() if k in ENABLED}
 checks = []
 for pid in sorted(CHECKS):
     c = CHECKS[pid]
